@@ -173,6 +173,103 @@ def _mk(tag):
     return m, o
 
 
+class _Toy(torch.nn.Linear):
+    """the tiny deterministic model of the 'resume' stream (float64): `weight` and `aux` are trained by a REAL optimizer
+    (two parameter groups); `bias` is not handed to the optimizer and carries the number of the update call, as the
+    weight of `_mk`'s model does.  reset_parameters() - what load_*_for_epoch(..., 0) calls - is deterministic."""
+
+    def __init__(self):
+        super().__init__(1, 1, bias=True, dtype=torch.float64)
+        self.aux = torch.nn.Parameter(torch.zeros(1, dtype=torch.float64))
+
+    def reset_parameters(self):
+        with torch.no_grad():
+            self.weight.fill_(0.0)
+            self.bias.fill_(0.0)
+            if hasattr(self, "aux"):
+                self.aux.fill_(0.0)
+
+
+def _mk_real(case, tag):
+    """model + real optimizer (SGD with momentum / Adam) as a training script builds them at start-up, before
+    load_model_and_optimizer_for_epoch: construction-time learning rate case["real"]["lr0"] in both groups"""
+    R = case["real"]
+    m = _Toy()
+    with torch.no_grad():
+        m.bias.fill_(float(tag))
+    if R["opt"] == "adam":
+        o = torch.optim.Adam([{"params": [m.weight]}, {"params": [m.aux], "betas": (0.5, 0.75)}], lr=R["lr0"])
+    else:
+        o = torch.optim.SGD([{"params": [m.weight]}, {"params": [m.aux], "momentum": 0.0}], lr=R["lr0"],
+                            momentum=R["mom"], nesterov=bool(R.get("nest")) and R["mom"] > 0)
+    o.param_groups[0]["vtag"] = int(tag)
+    return m, o
+
+
+def _mval(m):
+    """the number of the update call a model carries (see _mk / _Toy)"""
+    return float((m.bias if m.bias is not None else m.weight).item())
+
+
+def _train(case, m, o, e):
+    """one epoch of real training (quadratic losses, a few optimizer steps) -> (train_met, val_met): the case's grid
+    value moved by 0..2 / 0..4 grid steps that are read off the trained parameters, so every later metric - and with
+    it every later decision of the controller and every later history row - depends on the model AND optimizer state
+    (learning rate, momentum buffers / moments, step counts) the process carries"""
+    import math
+    R = case["real"]
+    t = float(R["g"][(e - 1) % len(R["g"])])
+    for s in range(R["steps"]):
+        o.zero_grad()
+        loss = 0.5 * ((m.weight - t) ** 2).sum() + 0.5 * ((m.aux + t - s) ** 2).sum()
+        loss.backward()
+        o.step()
+    x = float(m.weight.item()) - 2.0 * float(m.aux.item())
+    if not math.isfinite(x) or abs(x) > 1e9:
+        raise RuntimeError("the toy training diverged: %r" % x)
+    q = int(math.floor(x * 4096.0))
+    btr, bva = case["mets"][e - 1]
+    return (btr + q % 3) / SCALE, (bva + (q // 3) % 5) / SCALE
+
+
+def _cv(v):
+    if torch.is_tensor(v):
+        return v.detach().reshape(-1).to(torch.float64).tolist()
+    if v is None or isinstance(v, (bool, int, float, str)):
+        return v
+    if isinstance(v, (list, tuple)):
+        return [_cv(x) for x in v]
+    return repr(v)
+
+
+def _canon(m, o):
+    """the state a process trains on: trained parameters, every optimizer option of every group (learning rate,
+    momentum, ...) and the per-parameter optimizer state; the call number (bias / 'vtag') is left out"""
+    sd = o.state_dict()
+    return {"params": {k: _cv(v) for k, v in sorted(m.state_dict().items()) if k != "bias"},
+            "groups": [{k: _cv(v) for k, v in sorted(g.items()) if k != "vtag"} for g in sd["param_groups"]],
+            "state": {str(k): {kk: _cv(vv) for kk, vv in sorted(v.items())} for k, v in sorted(sd["state"].items())}}
+
+
+def _sdiff(a, b, where=""):
+    """first difference between two canonical states, as text"""
+    if isinstance(a, dict) and isinstance(b, dict):
+        for k in sorted(set(a) | set(b), key=str):
+            if k not in a or k not in b:
+                return "%s/%s only on one side" % (where, k)
+            d = _sdiff(a[k], b[k], "%s/%s" % (where, k))
+            if d:
+                return d
+        return ""
+    if isinstance(a, list) and isinstance(b, list) and len(a) == len(b):
+        for i, (x, y) in enumerate(zip(a, b)):
+            d = _sdiff(x, y, "%s/%d" % (where, i))
+            if d:
+                return d
+        return ""
+    return "" if a == b else "%s: %r != %r" % (where, a, b)
+
+
 def _params(case):
     from pydrobert.torch.training import TrainingStateParams
     fm, fo, _, _ = FMTS[case["fmt"]]
@@ -188,21 +285,23 @@ def _controller(params, csvp, sd, entry=True):
     return c
 
 
-def _load_all(c, last, notes):
+def _load_all(c, last, notes, mk=None, lrs=None):
     """[epoch, value the model file gives | None, value the optimizer file gives | None] for 1..last, through both load
-    functions (epoch positional / keyword)"""
+    functions (epoch positional / keyword).  mk: factory of the (model, optimizer) pair to load into (default _mk);
+    lrs: dict that receives, per epoch, the learning rates of the loaded optimizer's groups"""
+    mk = mk or _mk
     loads = []
     for e in range(1, last + 1):
         vm = vo = None
         both = False
         if e in c.cache_hist:
-            m, o = _mk(-7)
+            m, o = mk(-7)
             try:
                 c.load_model_for_epoch(m, e)
-                vm = int(m.weight.item())
+                vm = int(_mval(m))
             except Exception:
                 vm = None
-            m2, o2 = _mk(-7)
+            m2, o2 = mk(-7)
             try:
                 if e % 2:
                     c.load_model_and_optimizer_for_epoch(m2, o2, e)
@@ -210,13 +309,17 @@ def _load_all(c, last, notes):
                     c.load_model_and_optimizer_for_epoch(m2, o2, epoch=e)
                 both = True
                 vo = int(o2.param_groups[0].get("vtag"))
-                if int(m2.weight.item()) != vm:
+                if lrs is not None:
+                    lrs[e] = [float(g["lr"]) for g in o2.param_groups]
+                if int(_mval(m2)) != vm:
                     notes.append("load_model_for_epoch and load_model_and_optimizer_for_epoch disagree at epoch %d" % e)
             except Exception:
                 # which of the two files is the unusable one?
                 try:
                     sdict = torch.load(c.get_optimizer_path_with_info(c.get_info(e)), map_location="cpu")
                     vo = int(sdict["param_groups"][0].get("vtag"))
+                    if lrs is not None:
+                        lrs[e] = [float(g["lr"]) for g in sdict["param_groups"]]
                 except Exception:
                     vo = None
             if both != (vm is not None and vo is not None):
@@ -233,11 +336,17 @@ def _observe(case, params, names, csvp, sd, outcome, log, notes, c=None, entry=T
     else:
         c.update_cache()
     rows = []
+    real = case.get("real")
+    mk = (lambda tag: _mk_real(case, tag)) if real else _mk
+    lr_of_tag, csvx, lrs = {}, [], ({} if real else None)
     if os.path.exists(csvp):
         with open(csvp) as f:
             rd = list(__import__("csv").DictReader(f))
         for r in rd:
             rows.append([int(r["epoch"]), float(r["train_met"]) * SCALE, float(r["val_met"]) * SCALE, int(r["tag"])])
+            if real:    # the learning rate the call with this number recorded; the row without the call number
+                lr_of_tag[int(r["tag"])] = float(r["lr"])
+                csvx.append([r[k] for k in r if k != "tag"])
     for r in rows:
         if r[1] != int(r[1]) or r[2] != int(r[2]):
             notes.append("metric off the grid in the CSV: %r" % (r,))
@@ -252,31 +361,47 @@ def _observe(case, params, names, csvp, sd, outcome, log, notes, c=None, entry=T
         for e in cached:
             if c.get_info(e).get("tag") != tag_of.get(e):
                 notes.append("get_info(%d)['tag'] = %r, the CSV row says %r" % (e, c.get_info(e).get("tag"), tag_of.get(e)))
-    loads = _load_all(c, last, notes)
+    loads = _load_all(c, last, notes, mk, lrs)
     # default arguments: last epoch / best epoch (validation metric)
     if last and loads[last - 1][1] is not None and loads[last - 1][2] is not None:
-        m, o = _mk(-7)
+        m, o = mk(-7)
         c.load_model_and_optimizer_for_epoch(m, o)
-        if [int(m.weight.item()), int(o.param_groups[0].get("vtag"))] != loads[last - 1][1:]:
+        if [int(_mval(m)), int(o.param_groups[0].get("vtag"))] != loads[last - 1][1:]:
             notes.append("load_model_and_optimizer_for_epoch() without epoch did not give the last epoch")
     bestv = best if not case["bt"] else int(c.get_best_epoch())
     if bestv and loads[bestv - 1][1] is not None:
-        m, o = _mk(-7)
+        m, o = mk(-7)
         c.load_model_for_epoch(m)
-        if int(m.weight.item()) != loads[bestv - 1][1]:
+        if int(_mval(m)) != loads[bestv - 1][1]:
             notes.append("load_model_for_epoch() without epoch did not give the best epoch (validation metric)")
     if last and sd is not None:
         # epoch 0 given explicitly is "the beginning of the experiment", not "unset": no checkpoint is loaded
         vals = set(v for l in loads for v in l[1:] if v is not None)
-        m, o = _mk(-7)
+        m, o = mk(-7)
         c.load_model_for_epoch(m, 0)
-        m2, o2 = _mk(-7)
+        m2, o2 = mk(-7)
         c.load_model_and_optimizer_for_epoch(m2, o2, 0)
-        if float(m.weight.item()) in vals or float(m2.weight.item()) in vals or int(o2.param_groups[0].get("vtag")) != -7:
+        if _mval(m) in vals or _mval(m2) in vals or int(o2.param_groups[0].get("vtag")) != -7:
             notes.append("loading epoch 0 explicitly loaded a checkpoint")
     ck, nt = names.listing(sd)
-    return {"outcome": outcome, "hist": rows, "last": last, "best": best, "loads": loads,
-            "ckpts": ck, "ntmp": nt, "log": log}
+    res = {"outcome": outcome, "hist": rows, "last": last, "best": best, "loads": loads,
+           "ckpts": ck, "ntmp": nt, "log": log}
+    if real:
+        # "the parameters that were saved" include what the controller itself wrote into the optimizer during the
+        # update (class documentation: "stored values represent the state *after* updates due to epoch results, such as
+        # the learning rate"): an optimizer file written by the call that recorded a row must carry that row's learning
+        # rate in every group.  If it does not, the file does not hold the parameters of that call: its value is
+        # replaced by -(1000 + call number), which neither PV.C16.Model.run nor PV.C16.Spec.loads_ok accept.
+        for l in loads:
+            e, vo = l[0], l[2]
+            if vo is not None and vo in lr_of_tag and e in lrs and any(x != lr_of_tag[vo] for x in lrs[e]):
+                if e in (last, best):
+                    notes.append("the optimizer checkpoint of the %s recorded epoch %d was written by update call %d, whose history row "
+                                 "records the learning rate %r, but the checkpoint holds %r: a restart does not get the state the "
+                                 "update left behind" % ("last" if e == last else "best", e, vo, lr_of_tag[vo], lrs[e]))
+                l[2] = -(1000 + vo)
+        res["csvx"] = csvx
+    return res
 
 
 def _met(case, e, j):
@@ -315,12 +440,17 @@ def _watch(case, w, e, tag, notes):
         notes.append("after the completed update of epoch %d a second controller cannot load last/best: %s" % (e, exc_kind(ex)))
 
 
-def _process(case, params, names, csvp, sd, ctr, crash_at, calls, notes, fault_rems=(), live=None):
+def _process(case, params, names, csvp, sd, ctr, crash_at, calls, notes, fault_rems=(), live=None, rinfo=None):
     """one process: new controller, continue after the last recorded epoch.  case["drv"] varies HOW the process drives
     the controller (all variants are the same logical run): "ep" = epoch passed explicitly (kw / pos / mix), "refresh" =
     update_cache() ("uc") or add_entry again ("ae") before every update, "two" = two controllers take turns,
-    "watch" = a further controller stays alive and loads after every completed update"""
+    "watch" = a further controller stays alive and loads after every completed update.
+    case["real"]: the process is a real training script (class docstring of the controller): ONE model and ONE real
+    optimizer for its whole life, load_model_and_optimizer_for_epoch(model, optimizer) at start-up (initialise / resume
+    from the last recorded epoch), then per epoch: train (_train: the metrics depend on the state carried), update.
+    rinfo receives the state resumed with, the state carried on with after every completed update, the metrics."""
     mets = case["mets"]
+    real = case.get("real")
     drv = case.get("drv") or {}
     bt = bool(case["bt"])
     log = []
@@ -333,6 +463,11 @@ def _process(case, params, names, csvp, sd, ctr, crash_at, calls, notes, fault_r
     if live is not None:
         live.append(ctls[0])
     n = 0
+    if real:
+        m, o = _mk_real(case, 0)
+        ctls[0].load_model_and_optimizer_for_epoch(m, o)
+        if rinfo is not None:
+            rinfo.update(resume=[int(ctls[0].get_last_epoch()), _canon(m, o)], carried=[], mets=[])
     try:
         with inj:
             while True:
@@ -352,12 +487,20 @@ def _process(case, params, names, csvp, sd, ctr, crash_at, calls, notes, fault_r
                     raise RuntimeError("the training loop makes no progress: epoch %d again after %d updates" % (e, n))
                 n += 1
                 ctr[0] += 1
-                m, o = _mk(ctr[0])
+                if real:
+                    tr, va = _train(case, m, o, e)
+                    with torch.no_grad():
+                        m.bias.fill_(float(ctr[0]))
+                    o.param_groups[0]["vtag"] = ctr[0]
+                    if rinfo is not None:
+                        rinfo["mets"].append([e, tr * SCALE, va * SCALE])
+                else:
+                    m, o = _mk(ctr[0])
+                    tr, va = _met(case, e, 0), _met(case, e, 1)
                 inj.cur = []
                 calls.append(inj.cur)
                 entry = [inj.cur, None]
                 log.append(entry)
-                tr, va = _met(case, e, 0), _met(case, e, 1)
                 how = drv.get("ep")
                 if how == "mix":
                     how = "kw" if n % 2 else None
@@ -369,6 +512,8 @@ def _process(case, params, names, csvp, sd, ctr, crash_at, calls, notes, fault_r
                     cont = c.update_for_epoch(m, o, tr, va, best_is_train=bt, tag=ctr[0])
                 entry[1] = list(names.listing(sd))
                 inj.cur = None
+                if real and rinfo is not None:
+                    rinfo["carried"].append([e, _canon(m, o)])
                 if watcher is not None:
                     _watch(case, watcher, e, ctr[0], notes)
                 if not cont:
@@ -426,11 +571,14 @@ def run_schedule_impl(case, workdir, crashes):
         ctr, calls, notes, obs = [0], [], [], []
         deleted = set()
         for pi, k in enumerate(list(crashes) + [None]):
-            outcome, log, _ = _process(case, params, names, csvp, sd, ctr, k, calls, notes)
+            rinfo = {} if case.get("real") else None
+            outcome, log, _ = _process(case, params, names, csvp, sd, ctr, k, calls, notes, rinfo=rinfo)
             if jan is not None:
                 jc = jan.get("crash", [])
                 deleted |= set(_janitor(case, params, names, csvp, sd, jc[pi] if pi < len(jc) else None, notes))
             obs.append(_observe(case, params, names, csvp, sd, outcome, log, notes, c=keeper, entry=drv.get("obs") != "noentry"))
+            if rinfo is not None:
+                obs[-1]["real"] = rinfo
             if jan is not None:
                 obs[-1]["deleted"] = sorted(deleted)
             if outcome != "Crashed":
@@ -442,7 +590,7 @@ def run_schedule_impl(case, workdir, crashes):
 
 
 _UNINT = {}
-BASE_KEYS = ("klb", "fmt", "bt", "ctl", "mets", "jit")
+BASE_KEYS = ("klb", "fmt", "bt", "ctl", "mets", "jit", "real")
 
 
 def _base(case, **kw):
@@ -455,8 +603,8 @@ def _base(case, **kw):
 
 
 def _base_key(case):
-    return json.dumps([case["klb"], case["fmt"], case["bt"], case.get("ctl", {}), case["mets"], case.get("jit")],
-                      sort_keys=True)
+    return json.dumps([case["klb"], case["fmt"], case["bt"], case.get("ctl", {}), case["mets"], case.get("jit"),
+                       case.get("real")], sort_keys=True)
 
 
 def _unint(case, workdir):
@@ -630,6 +778,45 @@ def _jan_notes(case, out):
     return notes
 
 
+def _real_notes(u, obs):
+    """'resume' stream, judged by the UNINTERRUPTED run of the same script (u = its only observation): a process
+    started on the files must resume with exactly the model / optimizer state the uninterrupted process carried on
+    with after that epoch's update (that is what "gets exactly the parameters that were saved" means once the
+    controller itself writes into the optimizer during the update), every later update must leave the state the
+    uninterrupted run had, and the history - every column but the number of the call - must be a prefix of, and at
+    the end equal to, the uninterrupted one."""
+    notes = []
+    ref = {0: u["real"]["resume"][1]}
+    ref.update({e: s for e, s in u["real"]["carried"]})
+    said = set()
+    for j, o in enumerate(obs):
+        r = o.get("real")
+        if not r or "resume" not in r:
+            continue
+        e0, st = r["resume"]
+        if e0 not in ref:
+            notes.append("process %d resumes from epoch %d, which the uninterrupted run never recorded" % (j + 1, e0))
+        elif st != ref[e0] and "resume" not in said:
+            said.add("resume")
+            notes.append("process %d, started on the files left behind, resumed from epoch %d with a model/optimizer state that is not the "
+                         "one the uninterrupted process carried on with after that epoch's update (%s)" % (j + 1, e0, _sdiff(st, ref[e0])))
+        for e, s in r["carried"]:
+            if e in ref and s != ref[e] and "carried" not in said:
+                said.add("carried")
+                notes.append("after the update of epoch %d, process %d carries on with a model/optimizer state that differs from the "
+                             "uninterrupted run's (%s)" % (e, j + 1, _sdiff(s, ref[e])))
+        if o["csvx"] != u["csvx"][:len(o["csvx"])] and "prefix" not in said:
+            said.add("prefix")
+            i = min(i for i, x in enumerate(o["csvx"]) if i >= len(u["csvx"]) or x != u["csvx"][i])
+            notes.append("the history (every column but the call number) after process %d is not a prefix of the uninterrupted one: row %d is "
+                         "%r, uninterrupted %r" % (j + 1, i + 1, o["csvx"][i], u["csvx"][i] if i < len(u["csvx"]) else None))
+    if obs and obs[-1]["outcome"] != "Crashed" and obs[-1].get("csvx") != u["csvx"]:
+        notes.append("after continuing to the end the history (every column but the call number) has %d rows and differs from the "
+                     "uninterrupted one (%d rows): %r" % (len(obs[-1].get("csvx") or []), len(u["csvx"]),
+                                                         [x for x in (obs[-1].get("csvx") or []) if x not in u["csvx"]][:2]))
+    return notes
+
+
 def run_impl(case, workdir):
     _warm_up(workdir)
     with warnings.catch_warnings():
@@ -647,6 +834,12 @@ def run_impl(case, workdir):
             out = {"unint": u_obs[0], "n_calls": u_calls, "obs": obs, "ros": ros, "notes": sorted(set(notes + u_notes))}
             if case.get("jan"):
                 out["notes"] = sorted(set(out["notes"] + _jan_notes(case, out)))
+            if case.get("real"):
+                # the metrics PV.C16.Model.run is given: those the uninterrupted run realised, epoch by epoch
+                out["mets"] = [[int(a), int(b)] for _, a, b in u_obs[0]["real"]["mets"]]
+                if any([a, b] != [x, y] for (_, x, y), (a, b) in zip(u_obs[0]["real"]["mets"], out["mets"])):
+                    out["notes"].append("metric off the grid handed to the controller")
+                out["notes"] = sorted(set(out["notes"] + _real_notes(u_obs[0], obs)))
             return out
         except Exception as e:  # not a legal outcome of any run
             return {"error": exc_kind(e) + ": " + str(e)[:200]}
@@ -699,7 +892,8 @@ def t_obs(o):
 
 
 def t_mets(case, out):
-    return cl([cp(cz(a), cz(b)) for a, b in case["mets"][:out["n_calls"]]])
+    ms = out["mets"] if out.get("mets") is not None else case["mets"]      # 'resume' stream: the metrics the training produced
+    return cl([cp(cz(a), cz(b)) for a, b in ms[:out["n_calls"]]])
 
 
 def model_args(case, out):
@@ -1199,7 +1393,106 @@ def gen_cases(chk):
             crashes = crash_list(n, rng.choice([0, 1]))   # keep-all: two crashes in one epoch are K3
         add("delete-between-restarts", klb, base["fmt"], base["mets"], crashes, bt=bt,
             jan={"rev": rng.random() < 0.5, "crash": [rng.choice([None, None, 0, 1, 2]) for _ in range(len(crashes) + 1)]})
+
+    # (h) 'resume': state that the controller ITSELF modifies during the update it saves.  A real training script - one
+    #     model, one real optimizer (SGD with momentum / Adam, two groups) per process, resumed from the files at every
+    #     start, metrics that depend on the state carried - under learning-rate annealing (threshold / patience / cooldown /
+    #     factor / burn-in varied so that the rate is reduced at early epochs; initial rate from the optimizer or written by
+    #     the controller at epoch 0).  Stop points: every file-system call of every update as the single crash point and
+    #     every orderly stop (= crash before the first call of the next update), restarts after every epoch, several
+    #     crashes.  Judged by Model.check / Spec on the canonical observation (an optimizer file whose learning rate is not
+    #     the one its own history row records does not hold "the parameters that were saved") AND by the uninterrupted run
+    #     of the same script (_real_notes).  Left out, exactly: crash points after the history append and before the last
+    #     os.replace of the same update (K2), a second crash before a keep-all process has completed one update (K3).
+    def unint_of(base):
+        _warm_up(chk.workdir)
+        with warnings.catch_warnings():
+            warnings.simplefilter("ignore")
+            try:
+                return _unint(dict(base, crashes=[]), chk.workdir)[0][0]
+            except Exception:
+                return None
+
+    RFM = [(True, "ep"), (False, "ep"), (True, "no"), (True, "e2"), (False, "mo"), (True, "sd"), (False, "no"), (True, "mo"),
+           (False, "e2"), (True, "om"), (False, "sd"), (False, "om")]
+    nrec, made = (48 if thorough else 6), 0
+    for i in range(nrec * 5):
+        if made >= nrec:
+            break
+        klb, fmt = RFM[(i + 5 * chk.seed) % len(RFM)]
+        epf = FMTS[fmt][2] and FMTS[fmt][3]
+        n = rng.choice([4, 5, 5, 6, 7, 8] if thorough else [4, 5, 5, 6])
+        bt = epf and rng.random() < 0.2
+        if klb and not epf:     # every epoch a new best, whatever the training adds (0..4): anything else is a ValueError
+            vals = [70 - 6 * x - rng.randint(0, 1) for x in range(n)]
+        else:
+            vals = history(n, rng.choice(["worsening", "ties", "any", "dethrone"]))
+        mets = mets_of(vals, bt)
+        ctl = {"reduce_lr_threshold": rng.choice([1e6, 1e6, 0.5, 1.0, 2.0]), "reduce_lr_patience": rng.choice([1, 1, 2, 2, 3]),
+               "reduce_lr_cooldown": rng.choice([0, 1, 1, 2]), "reduce_lr_factor": rng.choice([0.5, 0.5, 0.25]),
+               "reduce_lr_burnin": rng.choice([0, 0, 0, 1])}
+        if rng.random() < 0.35:
+            ctl["log10_learning_rate"] = 0      # the controller writes the initial rate into the optimizer (epoch 0)
+        if rng.random() < 0.25:
+            ctl.update(early_stopping_threshold=0.5, early_stopping_patience=rng.choice([3, 4]))
+        real = {"opt": "adam" if i % 3 == 2 else "sgd", "lr0": rng.choice([1.0, 0.5, 0.25]), "mom": rng.choice([0.5, 0.5, 0.75, 0.0]),
+                "nest": rng.random() < 0.3, "steps": rng.choice([1, 2, 3]), "g": [rng.randint(-4, 6) for _ in range(n)]}
+        base = {"klb": klb, "fmt": fmt, "bt": bt, "mets": [list(m) for m in mets], "ctl": dict(ctl), "real": real}
+        if rng.random() < 0.3:
+            base["ctl"]["num_epochs"] = n
+        u = unint_of(base)
+        if u is None or not u.get("csvx"):
+            continue
+        # learning rates of the history: representable under '{:.4e}' (C15's K4 otherwise), reduced at least once
+        # before the last recorded epoch (so that training goes on after a reduction epoch)
+        init = 1.0 if "log10_learning_rate" in ctl else real["lr0"]
+        lrs, v, ok = [float(r[5]) for r in u["csvx"]], init, True
+        red = _red_epochs(base, u)
+        for _ in red:
+            v = v * ctl["reduce_lr_factor"]
+            ok = ok and float("{:.4e}".format(v)) == v
+        if not ok or not red or red[0] >= len(lrs):
+            continue
+        made += 1
+        ctl = base["ctl"]
+        lens = [len(ops) for ops, lst in u["log"] if lst is not None]
+        pts, off = [], 0
+        for e, (ops, lst) in enumerate(u["log"], 1):
+            if lst is None:
+                break
+            kinds = [op[0] for op in ops]
+            for j in range(len(ops)):
+                done = kinds[:j]
+                if "app" in done and done[done.index("app"):].count("rep") < 2:
+                    continue            # K2's window: the row is recorded, the checkpoint not yet in place
+                pts.append((off + j, e, j))
+            off += len(ops)
+        near = set(x for e in red for x in (e, e + 1))
+        if not thorough and len(pts) > 40:
+            pts = [p for p in pts if p[1] in near or p[2] == 0 or (p[0] + chk.seed) % 3 == 0]
+        add("resume", klb, fmt, mets, [], bt=bt, ctl=ctl, real=real)
+        for k, e, j in pts:
+            add("resume", klb, fmt, mets, [k], bt=bt, ctl=ctl, real=real)
+        # a new process after every epoch / after every second epoch (orderly stops only)
+        add("resume", klb, fmt, mets, lens, bt=bt, ctl=ctl, real=real)
+        add("resume", klb, fmt, mets, [a + b for a, b in zip(lens[0::2], lens[1::2])], bt=bt, ctl=ctl, real=real)
+        # several crashes anywhere (formats with {epoch}; keep-all: at most one crash per epoch)
+        if epf:
+            for _ in range(12 if thorough else 4):
+                ks = [rng.randint(0, off)]
+                for _ in range(rng.choice([1, 1, 2])):
+                    ks.append(rng.randint(0, 12) if rng.random() < 0.5 else rng.randint(0, off))
+                if not klb:
+                    ks = ks[:1] + [7 + x for x in ks[1:]]
+                add("resume", klb, fmt, mets, ks, bt=bt, ctl=ctl, real=real)
     return cases
+
+
+def _red_epochs(case, u):
+    """'resume' stream: the epochs whose update reduced the learning rate, read off the uninterrupted history"""
+    init = 1.0 if "log10_learning_rate" in case.get("ctl", {}) else case["real"]["lr0"]
+    lrs = [init] + [float(r[5]) for r in u.get("csvx", [])]
+    return [e for e in range(1, len(lrs)) if lrs[e] != lrs[e - 1]]
 
 
 def _dethrones(case):
@@ -1311,12 +1604,23 @@ def run(chk, cases=None):
                 "with the plain run instead of the model: 'no-files' (state_dir and/or state_csv_path None), 'remove-fails' (os.remove "
                 "raising PermissionError inside the clean-up); judged by Spec.spec_part alone, no known finding admitted: "
                 "'delete-between-restarts' (delete_model_and_optimizer_for_epoch of every recorded epoch but last and best at each "
-                "restart, itself crash-injected). A known finding is accepted only for observations the model reproduces exactly")
+                "restart, itself crash-injected). A known finding is accepted only for observations the model reproduces exactly. "
+                "Stream 'resume': a real training script (one tiny float64 model and one real optimizer - SGD with momentum or Adam, "
+                "two groups - per process, load_model_and_optimizer_for_epoch at every start, metrics computed from the trained state) "
+                "under learning-rate annealing with reductions at early epochs; every crash point of every update and every orderly "
+                "stop, restarts after every epoch, several crashes; compared with the same Model.check / Spec (metrics = those the "
+                "uninterrupted run realised; an optimizer file whose learning rate differs from the one its own history row records "
+                "counts as NOT holding the saved parameters) and, in python, with the uninterrupted run of the same script: state "
+                "resumed with = state the uninterrupted process carried on with after that epoch's update, same state after every "
+                "later update, history (all columns but the call number) a prefix / equal at the end")
     chk.assumptions += ["os.replace and the CSV append (open 'a' + writerow, flushed at close) are atomic; no torn writes",
                         "metrics lie on a grid where '{:.4e}' is exact; learning rates stay representable (C15's K4 is not re-tested here)",
                         "parameter values are one integer per update call, written to the model weight, the optimizer param group and the user entry 'tag'",
                         "the iteration order of the Python set clean_up is read back from the trace and handed to the model as an oracle",
-                        "stopping decisions (early stopping, num_epochs) are C15's: the model gets the metric list cut where the uninterrupted implementation stopped"]
+                        "stopping decisions (early stopping, num_epochs) are C15's: the model gets the metric list cut where the uninterrupted implementation stopped",
+                        "'resume' stream: PV.C16.Model treats a checkpoint's content as the value supplied for the update call; that the content is the state AFTER "
+                        "the update's own writes (learning rate) is judged by the row-vs-checkpoint learning-rate relation of the class documentation and by the "
+                        "uninterrupted-run oracle, not by a theorem; learning rates are dyadic (exact under '{:.4e}'); stop points inside K2's / K3's windows are not generated"]
     import time
     t0 = time.time()
     timing = chk.extra.setdefault("timing_s", {})
@@ -1350,6 +1654,16 @@ def run(chk, cases=None):
             chk.count("last+best: new best while the old best is older than the previous epoch (optimizer format with {epoch})")
         for key, val in sorted((c.get("drv") or {}).items()):
             chk.count("driven:%s=%s" % (key, val))
+        if c.get("real"):
+            chk.count("resume:optimizer=%s" % c["real"]["opt"])
+            chk.count("resume:initial rate " + ("written by the controller (log10_learning_rate)" if "log10_learning_rate" in c["ctl"] else "from the optimizer"))
+            chk.count("resume:patience=%s cooldown=%s factor=%s" % tuple(c["ctl"].get("reduce_lr_" + x) for x in ("patience", "cooldown", "factor")))
+            if "error" not in out:
+                red = _red_epochs(c, out["unint"])
+                chk.count("resume:first reduction at epoch %s" % (red[0] if red else "-"))
+                for o in out["obs"][1:]:
+                    e0 = o.get("real", {}).get("resume", [0])[0]
+                    chk.count("resume:restart from " + ("epoch 0" if not e0 else "an epoch whose update reduced the rate" if e0 in red else "another epoch"))
         if c.get("kind") == "nofiles":
             chk.count("constructor=" + {"sd": "csv only", "csv": "state_dir only", "both": "neither"}[c["nf"]])
         if c.get("kind") == "remfault" and "error" not in out:
